@@ -460,3 +460,64 @@ func verifH_C18_url() {
 	verifAssert(got, "response-is-a-url")
 	verifAssert(verifStrEq(resp.URL, want.String()), "url-is-the-library-result-for-the-request-fields")
 }
+
+// A request that carries both a raw suite name and a structured suite: whichever of the two the
+// service uses (it reports the name with the generated code), /ocra/validate uses the same one
+// for the same fields - a code generated by one endpoint validates at the matching endpoint.
+//
+//verif:harness prop=C18 name=ocraboth
+//verif:cases quick qlen=16
+//verif:cases thorough qlen=16,20
+//verif:replace github.com/ja7ad/otp.GenerateOCRA=verifStubAPI_GenerateOCRA
+//verif:replace github.com/ja7ad/otp.ValidateOCRA=verifStubAPI_ValidateOCRA
+//verif:opt maxpaths=4000
+func verifH_C18_ocraboth() {
+	secret := verifASCII("secret", 2)
+	verifAssume(!verifBlank(secret))
+	code := verifASCII("code", 2)
+	verifAssume(!verifBlank(code))
+	// both suites ask for the question only, so that a model replays against the real library
+	q := verifString("hq", verifCase("qlen"))
+	for i := 0; i < len(q); i++ {
+		c := q[i]
+		verifAssume(verifOr(verifAnd(c >= '0', c <= '9'), verifAnd(c >= 'a', c <= 'f')))
+	}
+	hin := &ocraInput{ChallengeHex: q}
+	rawName := "OCRA-1:HOTP-SHA1-6:QN08"
+	rawSuite, rerr := otp.NewRawSuite(rawName)
+	verifAssume(rerr == nil)
+	sc := &suiteConfig{HashFunction: "SHA512", CodeDigits: 6, ChallengeFormat: 1, IncludeChallenge: true}
+	structSuite, serr := otp.NewSuite(otp.SuiteConfig{Hash: otp.SHA512, Digits: 6, Challenge: otp.ChallengeFormat(1), IncludeChallenge: true})
+	verifAssume(serr == nil)
+	in, ierr := otp.HexInputToOCRA(hin.CounterHex, hin.ChallengeHex, hin.PasswordHex, hin.SessionInfoHex, hin.TimestampHex)
+	verifAssume(ierr == nil)
+	ctx := verifHTTP("POST", "/ocra/generate", "", "", ocraGenerateReq{Secret: secret, RawSuite: rawName, Suite: sc, Input: hin}, false)
+	routers(ctx)
+	var gresp otpGenerateResp
+	if !verifHTTPResp(ctx, &gresp) || verifHTTPStatus(ctx) != 200 {
+		return // the library refused the generation (function symbol's error outcome)
+	}
+	usedRaw := gresp.Suite == rawName
+	verifAssert(usedRaw || gresp.Suite == structSuite.String(), "generation-uses-one-of-the-two-suites")
+	used := structSuite
+	if usedRaw {
+		used = rawSuite
+	}
+	wcode, werr := otp.GenerateOCRA(secret, used, in)
+	verifAssert(werr == nil && verifStrEq(gresp.Code, wcode), "code-is-the-library-result-for-the-reported-suite")
+	ctx2 := verifHTTP("POST", "/ocra/validate", "", "", ocraValidateReq{Secret: secret, Code: code, RawSuite: rawName, Suite: sc, Input: hin}, false)
+	routers(ctx2)
+	var vresp otpValidateResp
+	got := verifHTTPResp(ctx2, &vresp)
+	wok, _ := otp.ValidateOCRA(secret, code, used, in)
+	verifObserve("valid", vresp.Valid)
+	verifAssert(verifHTTPStatus(ctx2) == 200 && got, "validation-answers")
+	verifAssert(vresp.Valid == wok, "validation-uses-the-suite-generation-used")
+	if verifNative() {
+		// natively: the code the service generated validates at the matching endpoint
+		ctx3 := verifHTTP("POST", "/ocra/validate", "", "", ocraValidateReq{Secret: secret, Code: gresp.Code, RawSuite: rawName, Suite: sc, Input: hin}, false)
+		routers(ctx3)
+		var v3 otpValidateResp
+		verifAssert(verifHTTPResp(ctx3, &v3) && v3.Valid, "validation-uses-the-suite-generation-used")
+	}
+}
